@@ -1848,4 +1848,228 @@ theorem lts_advance {a : A} {hist : List (HEv ℚ)} (hi : AInv flow F size cfg L
     simp only [runActs, lts_tick hi hq h]
     rfl
 
+/-! ## the classes seen parked or reset are declared classes -/
+
+/-- every parked packet of the observations satisfies `Pk`, every class that is reset `Pr` -/
+def EvsOK (Pk : Int → Prop) (Pr : Nat → Prop) (l : List (HEv ℚ)) : Prop :=
+  ∀ ev ∈ l, (∀ id t, ev = .park id t → Pk id) ∧ (∀ c t, ev = .reset c t → Pr c)
+
+theorem EvsOK.append {Pk : Int → Prop} {Pr : Nat → Prop} {l1 l2 : List (HEv ℚ)} (h1 : EvsOK Pk Pr l1) (h2 : EvsOK Pk Pr l2) :
+    EvsOK Pk Pr (l1 ++ l2) := by
+  intro ev hev
+  rcases List.mem_append.mp hev with h | h
+  · exact h1 ev h
+  · exact h2 ev h
+
+theorem evsOK_nil {Pk : Int → Prop} {Pr : Nat → Prop} : EvsOK Pk Pr [] := by intro ev hev; cases hev
+
+section
+variable {Q : Nat → ℚ} {ccnt : Nat → Int} {hol : Nat → Option Int} {t : ℚ} {total : Int} {ws : List (Nat × Nat)}
+variable {Pk : Int → Prop} {Pr : Nat → Prop}
+
+theorem evsOK_visitAdd (c : Nat) (L : LS) (h : EvsOK Pk Pr L.evs) : EvsOK Pk Pr (visitAdd Q ccnt t c L).evs := by
+  unfold visitAdd
+  split
+  · refine h.append ?_
+    intro ev hev
+    simp only [List.mem_singleton] at hev
+    subst hev
+    exact ⟨fun _ _ h => (nomatch h), fun _ _ h => (nomatch h)⟩
+  · exact h
+
+theorem evsOK_innerAt (m c : Nat) (L : LS) (hP : ∀ id, hol c = some id → Pk id) (h : EvsOK Pk Pr L.evs) :
+    EvsOK Pk Pr (innerAt size ccnt hol t m c L).1.evs := by
+  unfold innerAt
+  split
+  · cases hh : hol c with
+    | none => exact h
+    | some id =>
+      simp only
+      split
+      · exact h
+      · refine h.append ?_
+        intro ev hev
+        simp only [List.mem_singleton] at hev
+        subst hev
+        refine ⟨fun id' _ heq => ?_, fun _ _ h => (nomatch h)⟩
+        cases heq
+        exact hP id hh
+  · exact h
+
+theorem evsOK_visitFrom (hP : ∀ e ∈ ws, ∀ id, hol e.1 = some id → Pk id) : ∀ (ws' : List (Nat × Nat)) (m : Nat) (L : LS),
+    (∀ e ∈ ws', e ∈ ws) → EvsOK Pk Pr L.evs → EvsOK Pk Pr (visitFrom Q size ccnt hol t m ws' L).1.evs
+  | [], _, L, _, h => h
+  | (c, w) :: rest, m, L, hsub, h => by
+    rw [visitFrom]
+    have h1 := evsOK_innerAt (size := size) (ccnt := ccnt) (hol := hol) (t := t) (Pk := Pk) (Pr := Pr) m c _
+      (hP (c, w) (hsub _ List.mem_cons_self)) (evsOK_visitAdd (Q := Q) (ccnt := ccnt) (t := t) c L h)
+    cases hr : innerAt size ccnt hol t m c (visitAdd Q ccnt t c L) with
+    | mk L' oe =>
+      rw [hr] at h1
+      cases oe with
+      | some e => exact h1
+      | none => exact evsOK_visitFrom hP rest (m + 1) L' (fun e he => hsub e (List.mem_cons_of_mem _ he)) h1
+
+theorem evsOK_passes (hP : ∀ e ∈ ws, ∀ id, hol e.1 = some id → Pk id) : ∀ (k : Nat) (L : LS), EvsOK Pk Pr L.evs →
+    EvsOK Pk Pr (passes Q size ccnt hol t total ws k L).1.evs
+  | 0, L, h => h
+  | k + 1, L, h => by
+    rw [passes]
+    split
+    · have h1 := evsOK_visitFrom (Q := Q) (size := size) (ccnt := ccnt) (t := t) hP ws 0 L (fun e he => he) h
+      cases hr : visitFrom Q size ccnt hol t 0 ws L with
+      | mk L' oe =>
+        rw [hr] at h1
+        cases oe with
+        | some e => exact h1
+        | none => exact evsOK_passes hP k L' h1
+    · split <;> exact h
+
+theorem evsOK_thenPasses (hP : ∀ e ∈ ws, ∀ id, hol e.1 = some id → Pk id) (P : Nat) (piece : LS × Option LoopEnd)
+    (h : EvsOK Pk Pr piece.1.evs) : EvsOK Pk Pr (thenPasses Q size ccnt hol t total ws P piece).1.evs := by
+  obtain ⟨L', oe⟩ := piece
+  cases oe with
+  | some e => exact h
+  | none => exact evsOK_passes hP P L' h
+
+end
+
+/-- **what a burst lets observe**: the packets it parks are packets of declared classes, the classes it resets are declared -/
+theorem burst_evs_ok {a : A} {en : Entry} (hi : AInv flow F size cfg Lmax P a now) (hst : StartsAt a q en) :
+    EvsOK (fun id => flow id < F) (fun c => c < F) (a.burst F (qOf cfg) size cfg.weights P now en).evs := by
+  have ht := hi.table
+  have hP0 : ∀ e ∈ cfg.weights, ∀ id, a.hol e.1 = some id → flow id < F := by
+    intro e he id h
+    have := hi.holOK e.1 (entry_lt ht he) id h
+    rw [this.1]; exact entry_lt ht he
+  cases en with
+  | top =>
+    simp only [A.burst, finish, List.nil_append]
+    exact evsOK_passes hP0 P _ evsOK_nil
+  | got m id =>
+    obtain ⟨g, h⟩ := hst
+    have hrun := hi.run
+    rw [h] at hrun
+    obtain ⟨-, -, -, hpk, ⟨w, hw⟩, -⟩ := hrun
+    obtain ⟨rest, hd⟩ := drop_of_getElem? hw
+    simp only [A.burst, hd]
+    split
+    · exact evsOK_nil
+    · simp only [finish]
+      have hP1 : ∀ e ∈ cfg.weights, ∀ id', upd a.hol (flow id) (some id) e.1 = some id' → flow id' < F := by
+        intro e he id' h'
+        by_cases hec : e.1 = flow id
+        · rw [hec, upd_same] at h'; cases h'; exact hpk.1
+        · rw [upd_ne _ _ _ _ hec] at h'; exact hP0 e he id' h'
+      refine EvsOK.append ?_ (evsOK_thenPasses hP1 P _ (evsOK_visitFrom hP1 rest (m + 1) _
+        (fun e he => List.mem_of_mem_drop (by rw [hd]; exact List.mem_cons_of_mem _ he)) evsOK_nil))
+      intro ev hev
+      simp only [List.mem_singleton] at hev
+      subst hev
+      refine ⟨fun id' _ heq => ?_, fun _ _ h => (nomatch h)⟩
+      cases heq
+      exact hpk.1
+  | done m id =>
+    obtain ⟨p, h⟩ := hst
+    have hrun := hi.run
+    rw [h] at hrun
+    obtain ⟨-, -, -, hpk, ⟨w, hw⟩, -⟩ := hrun
+    obtain ⟨rest, hd⟩ := drop_of_getElem? hw
+    simp only [A.burst, hd, finish]
+    have hP1 : ∀ e ∈ cfg.weights, ∀ id', (a.book size (flow id) id).hol e.1 = some id' → flow id' < F := by
+      rw [book_hol]; exact hP0
+    refine EvsOK.append ?_ (evsOK_thenPasses hP1 P _ ?_)
+    · unfold bookEvs
+      split
+      · intro ev hev
+        simp only [List.mem_cons, List.not_mem_nil, or_false] at hev
+        rcases hev with rfl | rfl
+        · exact ⟨fun _ _ h => (nomatch h), fun _ _ h => (nomatch h)⟩
+        · refine ⟨fun _ _ h => (nomatch h), fun c _ heq => ?_⟩
+          cases heq
+          exact hpk.1
+      · intro ev hev
+        simp only [List.mem_singleton] at hev
+        subst hev
+        exact ⟨fun _ _ h => (nomatch h), fun _ _ h => (nomatch h)⟩
+    · have h1 := evsOK_innerAt (size := size) (ccnt := (a.book size (flow id) id).ccnt) (hol := (a.book size (flow id) id).hol)
+        (t := now) (Pk := fun id => flow id < F) (Pr := fun c => c < F) m (flow id) ⟨(a.book size (flow id) id).dfc, []⟩
+        (hP1 (flow id, w) (List.mem_of_getElem? hw)) evsOK_nil
+      cases hr : innerAt size (a.book size (flow id) id).ccnt (a.book size (flow id) id).hol now m (flow id)
+          ⟨(a.book size (flow id) id).dfc, []⟩ with
+      | mk L' oe =>
+        rw [hr] at h1
+        cases oe with
+        | some e => exact h1
+        | none =>
+          exact evsOK_visitFrom hP1 rest (m + 1) L'
+            (fun e he => List.mem_of_mem_drop (by rw [hd]; exact List.mem_cons_of_mem _ he)) h1
+
+/-- the classes seen parked or reset so far are declared classes -/
+def HOK (F : Nat) (flow : Int → Nat) (hist : List (HEv ℚ)) : Prop := EvsOK (fun id => flow id < F) (fun c => c < F) hist
+
+theorem hok_step {a a' : A} {hist new : List (HEv ℚ)} (hi : AInv flow F size cfg Lmax P a q.time) (hh : HOK F flow hist)
+    (hs : AStep F flow size cfg P n e a q a' new) : HOK F flow (hist ++ new) := by
+  refine EvsOK.append hh ?_
+  have one : ∀ (ev : HEv ℚ), (∀ id t, ev ≠ .park id t) → (∀ c t, ev ≠ .reset c t) →
+      EvsOK (fun id => flow id < F) (fun c => c < F) [ev] := by
+    intro ev h1 h2 x hx
+    simp only [List.mem_singleton] at hx
+    subst hx
+    exact ⟨fun id t h => absurd h (h1 id t), fun c t h => absurd h (h2 c t)⟩
+  cases hs with
+  | burstGet en r m' c' id' is hst hb hfin hc' hit => exact hb ▸ burst_evs_ok hi hst
+  | burstSend en r m' c' id' pk hst hb hfin =>
+    exact (hb ▸ burst_evs_ok hi hst).append (one _ (fun _ _ h => nomatch h) (fun _ _ h => nomatch h))
+  | burstBlock en r hst hb hfin htk =>
+    exact (hb ▸ burst_evs_ok hi hst).append (one _ (fun _ _ h => nomatch h) (fun _ _ h => nomatch h))
+  | burstTok en r k hst hb hfin htk =>
+    exact (hb ▸ burst_evs_ok hi hst).append (one _ (fun _ _ h => nomatch h) (fun _ _ h => nomatch h))
+  | sendInit p m id h => exact evsOK_nil
+  | sendFire p t m id h => exact one _ (fun _ _ h => nomatch h) (fun _ _ h => nomatch h)
+  | srcInit arr h => exact evsOK_nil
+  | srcPutTok id arr h htot => exact one _ (fun _ _ h => nomatch h) (fun _ _ h => nomatch h)
+  | srcPutPlain id arr h htot => exact one _ (fun _ _ h => nomatch h) (fun _ _ h => nomatch h)
+  | srcEnd h => exact evsOK_nil
+  | pendNoop r l1 l2 hpe hno => exact evsOK_nil
+  | pendHand g t l1 l2 hpe h htk => exact evsOK_nil
+
+theorem hok_parkKeys {hist : List (HEv ℚ)} (hh : HOK F flow hist) : ∀ c ∈ parkKeys flow hist, c < F := by
+  unfold parkKeys
+  unfold HOK at hh
+  generalize hacc : ([] : List Nat) = acc
+  have hlt : ∀ c ∈ acc, c < F := by rw [← hacc]; intro c hc; cases hc
+  clear hacc
+  induction hist generalizing acc with
+  | nil => exact hlt
+  | cons ev r ih =>
+    simp only [List.foldl_cons]
+    apply ih (fun x hx => hh x (List.mem_cons_of_mem _ hx))
+    cases ev with
+    | park id t =>
+      intro c hc
+      rcases (mem_addKey _ _ _).mp hc with h | rfl
+      · exact hlt c h
+      · exact (hh _ List.mem_cons_self).1 id t rfl
+    | _ => exact hlt
+
+theorem hok_forfKeys {hist : List (HEv ℚ)} (hh : HOK F flow hist) : ∀ c ∈ forfKeys hist, c < F := by
+  unfold forfKeys
+  unfold HOK at hh
+  generalize hacc : ([] : List Nat) = acc
+  have hlt : ∀ c ∈ acc, c < F := by rw [← hacc]; intro c hc; cases hc
+  clear hacc
+  induction hist generalizing acc with
+  | nil => exact hlt
+  | cons ev r ih =>
+    simp only [List.foldl_cons]
+    apply ih (fun x hx => hh x (List.mem_cons_of_mem _ hx))
+    cases ev with
+    | reset c0 t =>
+      intro c hc
+      rcases (mem_addKey _ _ _).mp hc with h | rfl
+      · exact hlt c h
+      · exact (hh _ List.mem_cons_self).2 c t rfl
+    | _ => exact hlt
+
 end DRRK
